@@ -662,8 +662,10 @@ class Unit:
                 if re.search(r'\bassert\b', rs.mask(text)):
                     self.obligations[oid] = {'props': props, 'kind': 'assert', 'fn': fid, 'text': ' '.join(text.split())[:300], 'property_level': '@property' in text}
                     self.lost_anchors.append({'obligation': oid, 'reason': str(e)})
-                    continue
-                raise
+                else:
+                    # a pure hint (ghost `let`, closure annotation): dropped; what depended on it fails on its own
+                    self.log.append({'rule': 'lost-hint', 'where': where, 'before': needle, 'after': '(ghost hint dropped: anchor not found)'})
+                continue
             if side == 'after':
                 pos += len(needle)
             acount += 1
